@@ -1,7 +1,7 @@
 """C11 - IndexedSet == insertion-ordered list of unique items + set algebra."""
 from hypothesis import strategies as st
 
-from vlib.core import Outcome, Sub, HarnessError
+from vlib.core import Outcome, Sub, HarnessError, expand_ops, REPEATS
 
 from boltons.setutils import IndexedSet
 
@@ -29,7 +29,7 @@ def _call(f, *a, **kw):
         return ('exc', type(e).__name__, str(e)[:200])
 
 
-_x = st.integers(0, U - 1)
+_x = st.integers(-2, U - 3)          # includes -1 and -2 (equal hashes) and 0
 _operand = st.tuples(st.sampled_from(['set', 'frozenset', 'list', 'tuple', 'iset']), st.lists(_x, max_size=6)).map(list)
 _idx = st.integers(-40, 40)
 _bound = st.one_of(st.none(), st.integers(-16, 16))
@@ -66,6 +66,9 @@ def _op():
         st.tuples(st.just('predicate'), st.sampled_from(['issubset', 'issuperset', 'isdisjoint']), _operand),
         st.tuples(st.just('slice'), _bound, _bound, st.sampled_from([None, 1, 2, 3])),
         st.tuples(st.just('slice'), _bound, _bound, st.sampled_from([None, 1, 2, 3])),
+        # a second live instance derived from the current one; 'switch' continues the history on another live instance
+        st.tuples(st.just('clone'), st.sampled_from(['ctor', 'update_empty', 'ior_empty', 'from_iterable', 'slice_all', 'union_none'])),
+        st.tuples(st.just('switch'), st.integers(0, 3)),
     ).map(list)
 
 
@@ -81,6 +84,7 @@ def strat(tier):
         'sub': st.just('iset'),
         'init': init,
         'ops': st.lists(_op(), max_size=25 if tier == 'quick' else 40),
+        'repeat': st.sampled_from(REPEATS),
     })
 
 
@@ -151,7 +155,7 @@ def _check_state(s, m, out, where, ctx):
         if r != ('ok', m.index(x)):
             return bad('index', 's.index(%r) = %r, reference %d (dead intervals %r)' % (x, r, m.index(x), getattr(s, 'dead_indices', '?')))
     ms = set(m)
-    for x in list(range(U)) + list(range(1000, 1008)) + [-5, 'zz']:
+    for x in list(range(-2, U - 2)) + list(range(1000, 1008)) + [-5, 'zz']:
         if _call(lambda: x in s) != ('ok', x in ms):
             return bad('contains', '%r in s = %r' % (x, _call(lambda: x in s)))
         if _call(s.count, x) != ('ok', 1 if x in ms else 0):
@@ -198,9 +202,33 @@ def run(case):
         if len(ctx.hot) > 12:
             del ctx.hot[0]
 
-    for step, op in enumerate(case['ops']):
+    others = []         # other live instances: [set, model]
+    for step, (op, full_check) in enumerate(expand_ops(case, (1,))):
         name = op[0]
         where = 'step %d %r' % (step, op if len(repr(op)) < 200 else op[:2])
+        if name in ('clone', 'switch'):
+            if name == 'clone':
+                how = op[1]
+                r = _call({'ctor': lambda: IndexedSet(s), 'from_iterable': lambda: IndexedSet.from_iterable(s), 'slice_all': lambda: s[:],
+                           'union_none': lambda: s.union(),
+                           'update_empty': lambda: (lambda e: (e.update(s), e)[1])(IndexedSet()),
+                           'ior_empty': lambda: (lambda e: e.__ior__(s))(IndexedSet())}[how])
+                if r[0] != 'ok' or type(r[1]) is not IndexedSet or r[1] is s:
+                    return out.fail('c11.clone', '%s -> %r' % (where, r))
+                if len(others) < 3:
+                    others.append([r[1], list(m)])
+            elif others:
+                j = op[1] % len(others)
+                others[j][0], s_new = s, others[j][0]
+                others[j][1], m_new = m, others[j][1]
+                s, m = s_new, m_new
+            for os_, om_ in others:
+                if not _check_state(os_, om_, out, 'after %s, other live instance' % where, ctx):
+                    out.kind += '.other-instance'
+                    return out
+            if not _check_state(s, m, out, 'after ' + where, ctx):
+                return out
+            continue
         exp = ('ok', None)
         mutating = True
         if name == 'add':
@@ -431,9 +459,20 @@ def run(case):
                                     where, _sh(got[1]) if got[0] == 'ok' else got, _sh(exp[1]), _sh(m)))
         elif got[0] != 'exc' or got[1] != exp[1]:
             return out.fail('c11.return.' + name, '%s returned %r, reference raises %s' % (where, got, exp[1]))
-        if not _check_state(s, m, out, 'after ' + where, ctx):
+        if full_check and not _check_state(s, m, out, 'after ' + where, ctx):
             return out
+        if full_check:
+            for os_, om_ in others:
+                if not _check_state(os_, om_, out, 'after %s, other live instance' % where, ctx):
+                    out.kind += '.other-instance'
+                    return out
+    if not _check_state(s, m, out, 'at the end', ctx):
+        return out
     out.nontrivial = ctx.nontrivial or nary
+    if others:
+        out.label('several_live_instances')
+    if case.get('repeat', 1) > 1:
+        out.label('long_history')
     if ctx.nontrivial:
         out.label('positional_read_after_nontail_deletion')
     if nary:
